@@ -231,15 +231,20 @@ fn r_cfg(d: &D) -> Option<String> {
 }
 fn r_opt_cfg(d: &D) -> Option<String> { if d.name() == "None" { Some("_".into()) } else { r_cfg(d.args().first()?) } }
 
-pub fn render_converter(c: &Converter) -> Result<String, String> {
+/// The converter as the model prints it. The index, the quantity index, the best lists and the fraction tables are private:
+/// they are read through the `Debug` rendering. A part whose rendering does not have the expected shape any more (a change of
+/// the private representation) is printed as `?` and its letter is returned, so that the model is asked to leave it out too.
+pub fn render_converter(c: &Converter) -> Result<(String, String), String> {
     let text = format!("{c:?}");
     let d = dbg::parse(&text).ok_or_else(|| format!("cannot read the Debug rendering of Converter: {}", &text[..text.len().min(200)]))?;
-    let inner = || -> Option<String> {
-        let units = c.all_units().map(r_unit).collect::<Vec<_>>().join(";");
+    let units = c.all_units().map(r_unit).collect::<Vec<_>>().join(";");
+    let index = || -> Option<String> {
         let mut idx: Vec<(String, String)> = vec![];
         for (k, v) in d.field("unit_index")?.args().first()?.map() { idx.push((k.str()?.to_string(), v.num()?.to_string())); }
         idx.sort();
-        let idx = idx.iter().map(|(k, v)| format!("{}>{}", enc_text(k), v)).collect::<Vec<_>>().join(";");
+        Some(idx.iter().map(|(k, v)| format!("{}>{}", enc_text(k), v)).collect::<Vec<_>>().join(";"))
+    };
+    let qindex = || -> Option<String> {
         let qm = d.field("quantity_index")?.map();
         let mut qs = vec![];
         for q in PQS {
@@ -247,6 +252,9 @@ pub fn render_converter(c: &Converter) -> Result<String, String> {
             let ids: Vec<String> = e.1.args().iter().filter_map(|x| x.num().map(|s| s.to_string())).collect();
             qs.push(if ids.is_empty() { "~".to_string() } else { ids.join(",") });
         }
+        Some(qs.join(";"))
+    };
+    let best = || -> Option<String> {
         let bm = d.field("best")?.map();
         let mut bs = vec![];
         for q in PQS {
@@ -257,6 +265,9 @@ pub fn render_converter(c: &Converter) -> Result<String, String> {
                 _ => return None,
             });
         }
+        Some(bs.join(";"))
+    };
+    let fractions = || -> Option<String> {
         let fr = d.field("fractions")?;
         let fq = fr.field("quantity")?.map();
         let mut fqs = vec![];
@@ -267,10 +278,12 @@ pub fn render_converter(c: &Converter) -> Result<String, String> {
         for (k, v) in fr.field("unit")?.map() { fu.push((k.num()?.parse().ok()?, r_cfg(v)?)); }
         fu.sort();
         let fus = if fu.is_empty() { "~".to_string() } else { fu.iter().map(|(k, v)| format!("{k}={v}")).collect::<Vec<_>>().join(",") };
-        let f = format!("{}|{}|{}|{}|{}", r_opt_cfg(fr.field("all")?)?, r_opt_cfg(fr.field("metric")?)?, r_opt_cfg(fr.field("imperial")?)?, fqs.join(","), fus);
-        Some(format!("ok U={} I={} Q={} B={} F={} D={}", units, idx, qs.join(";"), bs.join(";"), f, sys_name(c.default_system())))
+        Some(format!("{}|{}|{}|{}|{}", r_opt_cfg(fr.field("all")?)?, r_opt_cfg(fr.field("metric")?)?, r_opt_cfg(fr.field("imperial")?)?, fqs.join(","), fus))
     };
-    inner().ok_or_else(|| "unexpected shape of the Debug rendering of Converter".to_string())
+    let mut skipped = String::new();
+    let mut part = |letter: char, v: Option<String>| -> String { match v { Some(s) => s, None => { skipped.push(letter); "?".to_string() } } };
+    let (i, q, b, f) = (part('I', index()), part('Q', qindex()), part('B', best()), part('F', fractions()));
+    Ok((format!("ok U={} I={} Q={} B={} F={} D={}", units, i, q, b, f, sys_name(c.default_system())), skipped))
 }
 
 /// build error -> the model's error line (through the Debug rendering, so that this file compiles with and without
@@ -506,8 +519,17 @@ pub fn one_stack(ctx: &mut Ctx, files: Vec<UnitsFile>, family: &str) {
             ctx.count("result:ok");
             ctx.count(&format!("ok-units:{}", match c.unit_count() { 0..=5 => "<=5", 6..=12 => "6-12", 13..=30 => "13-30", _ => ">30" }));
             match render_converter(c) {
-                Ok(r) => ctx.case(op, r, true, desc.clone()),
-                Err(m) => ctx.case(op, format!("unreadable: {m}"), true, desc.clone()),
+                Ok((r, skipped)) if skipped.is_empty() => ctx.case(op, r, true, desc.clone()),
+                Ok((r, skipped)) => {
+                    // private parts whose Debug shape changed are left out on both sides (units, keys, ratios, systems and the
+                    // default system are still compared; behaviour of the skipped parts is tied through the C09 / C12 runs)
+                    if !ctx.notes.iter().any(|n| n.starts_with("private parts of Converter")) {
+                        ctx.notes.push(format!("private parts of Converter could not be read from its Debug rendering (its private representation changed): {skipped:?} of I=index, Q=quantity index, B=best lists, F=fraction tables are not compared with the model in this run"));
+                    }
+                    ctx.count(&format!("converter-parts-not-readable:{skipped}"));
+                    ctx.case(op.replacen("build ", &format!("build_skip {skipped} "), 1), r, true, desc.clone())
+                }
+                Err(m) => { ctx.count("converter-debug-unreadable"); if !ctx.notes.iter().any(|n| n.starts_with("the Debug rendering of Converter")) { ctx.notes.push(format!("the Debug rendering of Converter cannot be read at all ({m}): built converters are judged by the oracles only in this run")); } }
             }
             oracle_converter(ctx, &desc, &keep, c, in_premise);
             oracle_precedence(ctx, &desc, &keep, c);
@@ -898,7 +920,7 @@ non-trivial = the build returned a converter (or panicked); distinct = distinct 
                 (Ok((d, b)), Built::Ok(c)) => {
                     if d != c || b != c { ctx.oracle_fail(desc.clone(), "the default converter differs from the one built from units.toml".into(), "c16:default-differs".into()); }
                     // the generated Lean value of units.toml, built by the model, against the default converter
-                    match render_converter(&d) { Ok(r) => ctx.case("build_shipped".into(), r, true, desc.clone()), Err(m) => ctx.case("build_shipped".into(), m, true, desc.clone()) }
+                    match render_converter(&d) { Ok((r, skipped)) if skipped.is_empty() => ctx.case("build_shipped".into(), r, true, desc.clone()), Ok(_) | Err(_) => ctx.count("shipped-converter-parts-not-readable(not compared)") }
                     ctx.case("build_shipped_exact_ok".into(), format!("ok {}", d.unit_count()), true, "the shipped file builds over exact rationals".into());
                     oracle_converter(ctx, &desc, &[sh.clone()], &d, true);
                 }
